@@ -18,6 +18,18 @@ CHECKS = {
         "scheduling on the deterministic loop; one consumer at a time, no consumer cancellation.",
         "5/C08",
     ),
+    "C11": (
+        "exploration",
+        "round-trip + differential testing: Hypothesis-generated message histories, sender schedules and segmentations "
+        "through WebSocketWriter -> WebSocketReader, cross-checked by an independent RFC 6455/7692 codec; exhaustive "
+        "size x configuration grid",
+        "Every generated history is sent through the real writer (1-3 sender tasks, harness-owned executor timing, "
+        "optional cancellation), the wire bytes are decoded by the real reader under a generated segmentation and by an "
+        "independent reference decoder; all three views must agree with what was sent. Finds counterexamples only.",
+        "Trusts vlib/refws.py (zlib-based reference), the capturing transport, and harness-run executor jobs in place "
+        "of threads; asyncio FIFO scheduling.",
+        "5/C11",
+    ),
 }
 
 REASON_PENDING = "check not built yet in this round (design in DESIGN.md section 5); not claimed until it runs quietly on the unchanged tree"
